@@ -1,6 +1,7 @@
 import shutil
 import sys
 
+from conductor.config import VERSION_INDEX_NAME
 from conductor.context import Context
 from conductor.utils.user_code import cli_command
 
@@ -38,4 +39,16 @@ def main(args):
             print("Aborting!")
             sys.exit(1)
 
+    # Remove the version index first: if the clean is interrupted, whatever
+    # outputs are left must not be listed by an index as recorded versions.
+    index_path = ctx.output_path / VERSION_INDEX_NAME
+    for leftover in (
+        index_path,
+        index_path.with_name(index_path.name + "-journal"),
+        index_path.with_name(index_path.name + "-wal"),
+    ):
+        try:
+            leftover.unlink()
+        except OSError:
+            pass
     shutil.rmtree(ctx.output_path, ignore_errors=True)
